@@ -27,6 +27,9 @@ CHECKS = {
     "C13": dict(level="exploration", technique="runtime monitoring: invariant monitor (finite-float walker) over every value produced by a type-directed workload on the float-related library surface",
                 text="held on the executions observed: every float node of every value produced by generated calls of all float-related overloads (read from the tree's own signature table), arithmetic templates, literal spellings and JSON numbers at the edges of the double range was finite or the result was an error value",
                 note="model-free; values are observed through the dump hook; overloads reached / not reached are listed in the evidence"),
+    "C02": dict(level="exploration", technique=DIFF + " (independent big-step evaluator written from the book); output trace comparison through a recording writer; effect probes",
+                text="held on the executions observed: typed random core programs (depth <= 6, <= 14 declarations, all surface forms randomised) agree binding by binding and output line by output line with an independent evaluator; flat operator pairs/triples agree with the documented grouping; operator/method/index sugar and user overloads of operator names take effect; textual effect probes show each argument evaluated once, left to right, and only the documented short-circuit functions skipping one",
+                note="trusts the reference evaluator (xrv/corelang.py); after an error argument the remaining arguments may or may not be evaluated (both accepted); floats and big ints are out of this fragment (C13/C14)"),
 }
 REASON_PENDING = "check under construction in this round (not yet claimed)"
 
